@@ -9,7 +9,7 @@
      lost = 2  once such a step produced names outside the universe U (nothing is judged until the next reset).
    A rejected step is reported as <<"MISMATCH", line, op>> and the state re-synchronised.                    *)
 EXTENDS FsModel, Json, IOUtils
-VARIABLES l, nbad, lost
+VARIABLES l, nbad, lost, nskip      \* nskip counts the steps that were not judged (vacuity check)
 T == ndJsonDeserialize(IOEnv.TRACE)
 
 InU(e) == \A x \in Entries(e.tree) : x.p \in U
@@ -19,28 +19,28 @@ Resync(e) ==
          ELSE IF st.h.open THEN [st.h EXCEPT !.pos = e.hpos]
          ELSE [open |-> TRUE, p |-> e.p, pos |-> e.hpos, rd |-> HasR(e.k) \/ ~HasW(e.k), wr |-> HasW(e.k)]]
 HandleOps == {"write", "seek", "readall"}
-TInit == l = 1 /\ nbad = 0 /\ lost = 0 /\ st = Init0 /\ last = <<"init", <<>>, <<>>, 0, <<>>, 0, <<>>>> /\ n = 0
+TInit == l = 1 /\ nbad = 0 /\ lost = 0 /\ nskip = 0 /\ st = Init0 /\ last = <<"init", <<>>, <<>>, 0, <<>>, 0, <<>>>> /\ n = 0
 TStep ==
   /\ l <= Len(T)
   /\ l' = l + 1
   /\ UNCHANGED n
   /\ LET e == T[l] IN
-     IF e.op = "reset" THEN st' = Init0 /\ lost' = 0 /\ UNCHANGED <<nbad, last>>
-     ELSE IF lost = 2 THEN UNCHANGED <<st, lost, nbad, last>>
+     IF e.op = "reset" THEN st' = Init0 /\ lost' = 0 /\ UNCHANGED <<nbad, last, nskip>>
+     ELSE IF lost = 2 THEN UNCHANGED <<st, lost, nbad, last>> /\ nskip' = nskip + 1
      ELSE IF e.op = "nop" \/ ~Enabled(e.op, st, e.p, e.q, e.k) \/ (lost = 1 /\ e.op \in HandleOps)
-     THEN /\ st' = Resync(e) /\ UNCHANGED <<nbad, last>>
+     THEN /\ st' = Resync(e) /\ UNCHANGED <<nbad, last>> /\ nskip' = nskip + 1
           /\ lost' = IF ~InU(e) THEN 2
                      ELSE IF e.op # "nop" /\ (TouchesHandle(st, e.p) \/ TouchesHandle(st, e.q)) THEN 1 ELSE lost
      ELSE LET allowed == { o \in Step(e.op, st, e.p, e.q, e.k, e.d) : Match(o, e) }
-          IN /\ last' = <<e.op, e.p, e.q, e.k, e.d, e.r, e.rd>>
+          IN /\ last' = <<e.op, e.p, e.q, e.k, e.d, e.r, e.rd>> /\ UNCHANGED nskip
              /\ lost' = IF e.op = "close" THEN 0 ELSE lost
              /\ IF allowed # {}
                 THEN st' = AsState(CHOOSE o \in allowed : TRUE) /\ UNCHANGED nbad
                 ELSE /\ PrintT(<<"MISMATCH", l, e.op>>)
                      /\ st' = Resync(e) /\ nbad' = nbad + 1
-TDone == l = Len(T) + 1 /\ PrintT(<<"TRACE-DONE", Len(T), nbad>>) /\ l' = l + 1 /\ UNCHANGED <<st, last, nbad, n, lost>>
+TDone == l = Len(T) + 1 /\ PrintT(<<"TRACE-DONE", Len(T), nbad, nskip>>) /\ l' = l + 1 /\ UNCHANGED <<st, last, nbad, n, lost, nskip>>
 TNext == TStep \/ TDone
-TSpec == TInit /\ [][TNext]_<<vars, l, nbad, lost>>
+TSpec == TInit /\ [][TNext]_<<vars, l, nbad, lost, nskip>>
 \* the reference's own invariant is evaluated on every state the implementation was observed in
 TInv == lost # 2 => \A x \in U : st.tree[x].t # "none" => ParentIsDir(st.tree, x)
 ================================================================================
